@@ -37,7 +37,9 @@ func runC08(seed int64, n int, long bool) {
 	defer os.RemoveAll(dir)
 	cfgs := []concCfg{
 		{"file-wal", func(dir string, i int) string { return filepath.Join(dir, fmt.Sprintf("c08_%d.db", i)) }},
-		{"vfs-memdb", func(dir string, i int) string { return fmt.Sprintf("file:/c08_%d_%d.db?vfs=memdb", time.Now().UnixNano(), i) }},
+		{"vfs-memdb", func(dir string, i int) string {
+			return fmt.Sprintf("file:/c08_%d_%d.db?vfs=memdb", time.Now().UnixNano(), i)
+		}},
 		{"shared-cache-memory", func(dir string, i int) string { return ":memory:" }},
 	}
 	rounds := n
@@ -59,6 +61,9 @@ func runC08(seed int64, n int, long bool) {
 				fail("c08-spurious-error", fmt.Sprintf("%s: %d operations failed merely because another one was running (database is locked / table is locked)", cfg.name, lockErrs), nil)
 			}
 		}
+	}
+	if len(sum.Failures) == 0 {
+		runC08Interleave(seed, rounds+rounds/4)
 	}
 	if len(sum.Failures) == 0 {
 		c08Server(seed, rounds)
@@ -349,58 +354,96 @@ func c08Server(seed int64, rounds int) {
 
 // ---------- C09: process death ----------
 
-// the scripted workload of the crash runs: operation i is a function of (seed, i)
-func crashOps(seed int64) []*hx.Op {
-	prof := hx.Profiles["mixed"]
-	prof.Blocks = false
-	prof.Expiry = false
-	prof.MinSteps, prof.MaxSteps = 25, 25
-	g := hx.NewGen(seed, prof)
-	h := g.History(0)
+// the scripted workloads of the crash runs: workload w is a function of (seed, w).  Each is a
+// history of one family profile (so that most operations find keys of their type), followed by
+// one operation of every kind of that family the generators produce.
+var crashFamilies = []string{"list", "set", "zset", "hash", "str", "mixed"}
+
+func crashOps(seed int64, wl int) []*hx.Op {
+	fam := crashFamilies[wl%len(crashFamilies)]
+	usable := func(st *hx.Step) bool {
+		if st.Gen != nil || st.Block || len(st.Ops) != 1 || st.Ops[0].RunDB != nil && st.Ops[0].MultiMap {
+			return false
+		}
+		switch st.Ops[0].Name {
+		case "EPop", "ERandom", "KRandom", "KDeleteAll": // random choices cannot be replayed on the twin
+			return false
+		}
+		return true
+	}
+	pool := newCasePool(seed+int64(wl)*77, []string{fam}, 30, func(p *hx.Profile) {
+		p.Blocks = false
+		p.Expiry = false
+		p.ExpireProb = 0
+		p.MinSteps, p.MaxSteps = 20, 20
+	}, func(st *hx.Step) bool { return usable(st) && st.Ops[0].Write })
 	var ops []*hx.Op
-	for _, st := range h.Steps {
-		if st.Gen == nil && len(st.Ops) == 1 && st.Ops[0].RunDB == nil {
-			name := st.Ops[0].Name
-			// random choices cannot be replayed on the twin
-			if name == "EPop" || name == "ERandom" || name == "KRandom" {
-				continue
+	// a base history
+	if len(pool.kinds) > 0 {
+		if c, ok := pool.Take(pool.kinds[0]); ok {
+			for _, st := range c.Hist.Steps {
+				if usable(st) {
+					ops = append(ops, st.Ops[0])
+				}
 			}
-			ops = append(ops, st.Ops[0])
+		}
+	}
+	// then every kind of write, twice
+	for round := 0; round < 2; round++ {
+		for _, k := range pool.kinds {
+			if c, ok := pool.Take(k); ok {
+				ops = append(ops, c.Target.Ops[0])
+			}
 		}
 	}
 	return ops
 }
 
-// crashChild runs the workload on the file and acknowledges every completed operation on stdout;
-// the interposing driver makes the process exit at storage step exitAt.
-func crashChild(path string, seed int64, exitAt int64, post bool) {
+// crashChild runs the workload on the file and acknowledges every completed operation on stdout
+// (with the number of storage steps seen so far); the interposing driver makes the process exit
+// at storage step exitAt.  With atOpen the steps of Open itself are counted as well (and the
+// statements of the schema script one by one).
+func crashChild(path string, seed int64, wl int, exitAt int64, post bool, atOpen bool) {
+	w := bufio.NewWriter(os.Stdout)
+	if atOpen {
+		hx.Plan.DDL = true
+		hx.Plan.Arm(0, exitAt, post)
+	}
 	db, err := redka.Open(path, &redka.Options{DriverName: hx.FaultDriverName})
 	if err != nil {
 		fmt.Println("OPENERR", err)
 		os.Exit(3)
 	}
+	if atOpen {
+		fmt.Fprintf(w, "OPENED %d %s\n", hx.Plan.Disarm(), strings.Join(hx.Plan.Trace, ","))
+		w.Flush()
+		if exitAt != 0 {
+			os.Exit(0) // the crash point lay beyond Open
+		}
+	}
 	x := &hx.Exec{DB: db}
-	ops := crashOps(seed)
-	w := bufio.NewWriter(os.Stdout)
+	ops := crashOps(seed, wl)
 	hx.Plan.Arm(0, exitAt, post)
 	for i, op := range ops {
 		op.Run(hxDB(db), x, op)
-		fmt.Fprintf(w, "ACK %d\n", i)
+		fmt.Fprintf(w, "ACK %d %d %s\n", i, len(hx.Plan.Trace), op.Name)
 		w.Flush()
 	}
-	fmt.Fprintf(w, "DONE %d\n", hx.Plan.Disarm())
+	n := hx.Plan.Disarm()
+	fmt.Fprintf(w, "TRACE %s\n", strings.Join(hx.Plan.Trace, ","))
+	fmt.Fprintf(w, "DONE %d\n", n)
 	w.Flush()
 	os.Exit(0) // without Close: the process just ends
 }
 
-func contentAfter(seed int64, nOps int) (string, error) {
+func contentAfter(seed int64, wl int, nOps int) (string, error) {
 	db, err := redka.Open(fmt.Sprintf("file:/c09twin_%d_%d.db?vfs=memdb", time.Now().UnixNano(), nOps), nil)
 	if err != nil {
 		return "", err
 	}
 	defer db.Close()
 	x := &hx.Exec{DB: db}
-	for i, op := range crashOps(seed) {
+	for i, op := range crashOps(seed, wl) {
 		if i >= nOps {
 			break
 		}
@@ -408,6 +451,64 @@ func contentAfter(seed int64, nOps int) (string, error) {
 	}
 	c, err := hx.ContentOfDB(db)
 	return c.Text, err
+}
+
+// crashPoints chooses where to crash, from the storage-step trace of an undisturbed run and the
+// step count at which each operation was acknowledged: every write statement that runs outside
+// a begin..commit bracket (an auto-committed statement: anything after it in the same
+// operation is a separate durable unit), for the first two occurrences of every kind of operation
+// the commit and the statement after its first write, and an even sample of the rest up to the budget.
+func crashPoints(trace []string, ackAt []int, names []string, budget int) []int64 {
+	chosen := map[int64]bool{}
+	var order []int64
+	add := func(k int64) {
+		if k >= 1 && k <= int64(len(trace)) && !chosen[k] {
+			chosen[k] = true
+			order = append(order, k)
+		}
+	}
+	inTx := false
+	for i, kind := range trace {
+		switch kind {
+		case "begin":
+			inTx = true
+		case "commit":
+			inTx = false
+		case "exec":
+			if !inTx {
+				add(int64(i + 1))
+				add(int64(i + 2))
+			}
+		}
+	}
+	seen := map[string]int{}
+	start := 0
+	for oi, end := range ackAt {
+		name := names[oi]
+		if seen[name] < 2 {
+			seen[name]++
+			firstExec := -1
+			for j := start; j < end && j < len(trace); j++ {
+				if trace[j] == "exec" && firstExec < 0 {
+					firstExec = j
+				}
+				if trace[j] == "commit" {
+					add(int64(j + 1))
+				}
+			}
+			if firstExec >= 0 {
+				add(int64(firstExec + 2))
+			}
+		}
+		start = end
+	}
+	if rest := budget - len(order); rest > 0 {
+		stride := len(trace)/rest + 1
+		for k := 1; k <= len(trace); k += stride {
+			add(int64(k))
+		}
+	}
+	return order
 }
 
 func runC09(seed int64, n int, long bool) {
@@ -418,74 +519,149 @@ func runC09(seed int64, n int, long bool) {
 	}
 	defer os.RemoveAll(dir)
 	self, _ := os.Executable()
-	// how many storage steps does the workload issue?
-	probe := filepath.Join(dir, "probe.db")
-	out, _ := exec.Command(self, "-child", probe, "-childseed", fmt.Sprint(seed)).Output()
-	total := int64(0)
-	for _, l := range strings.Split(string(out), "\n") {
-		if strings.HasPrefix(l, "DONE ") {
-			total, _ = strconv.ParseInt(strings.TrimSpace(l[5:]), 10, 64)
+	caseNo := 0
+	recovered := func(path string, what string, wl int, acked int, checkContent bool) {
+		// re-open: must succeed, content = acknowledged prefix (+ the in-flight operation as a whole or not at all)
+		x, err := hx.OpenPath(path)
+		if err != nil {
+			fail("c09-reopen", fmt.Sprintf("after %s the database does not re-open: %v", what, err), nil)
+			return
+		}
+		defer x.Close()
+		got, err := hx.ContentOfDB(x.DB)
+		if err != nil {
+			fail("c09-reopen", fmt.Sprintf("after %s the recovered database cannot be read: %v", what, err), nil)
+			return
+		}
+		if checkContent {
+			wantA, _ := contentAfter(seed, wl, acked+1)
+			wantB, _ := contentAfter(seed, wl, acked+2)
+			if got.Text != wantA && got.Text != wantB {
+				fail("c09-content", fmt.Sprintf("%s, %d operations acknowledged: the recovered content is neither the acknowledged prefix nor that plus the in-flight operation\n recovered: %s\n prefix   : %s\n prefix+1 : %s",
+					what, acked+1, got.Text, wantA, wantB), nil)
+			}
+		} else if got.Text != "" {
+			fail("c09-content", fmt.Sprintf("%s: nothing was written, the recovered database contains %s", what, got.Text), nil)
+		}
+		var ic string
+		_ = x.Raw.QueryRow("pragma integrity_check").Scan(&ic)
+		if ic != "ok" {
+			fail("c09-integrity", "pragma integrity_check after recovery: "+ic, nil)
+		}
+		// the recovered database must work: one operation of every type, then the structural audit
+		probe := &hx.History{ID: caseNo, Steps: []*hx.Step{
+			{Ops: []*hx.Op{hx.SSet("zz1", hx.VStr("v"))}}, {Ops: []*hx.Op{hx.LPushBack("zz2", hx.VStr("a"))}},
+			{Ops: []*hx.Op{hx.EAdd("zz3", hx.VStr("m"))}}, {Ops: []*hx.Op{hx.HSet("zz4", "f", hx.VStr("v"))}},
+			{Ops: []*hx.Op{hx.ZAdd("zz5", hx.VStr("m"), 1)}}, {Ops: []*hx.Op{hx.KDelete("zz1", "zz2", "zz3", "zz4", "zz5")}}}}
+		probe.Number()
+		audit, v := hx.AuditAndContinue(x, probe)
+		if audit != "ok" {
+			fail("c09-inconsistent", fmt.Sprintf("after %s the recovered database breaks the structural rules: %s", what, audit), nil)
+		} else if v.Kind != hx.KindNone {
+			fail("c09-unusable", fmt.Sprintf("after %s the recovered database does not behave like a database: %s: %s", what, v.Kind, v.Detail), nil)
 		}
 	}
-	if total == 0 {
-		fail("harness", "crash child did not finish: "+string(out), nil)
-		return
+	cleanup := func(path string) {
+		os.Remove(path)
+		os.Remove(path + "-wal")
+		os.Remove(path + "-shm")
 	}
-	count(fmt.Sprintf("storage_steps_%d", total))
-	stride := int64(1)
-	if !long && total > int64(n) {
-		stride = total / int64(n)
-	}
-	caseNo := 0
-	for k := int64(1); k <= total && len(sum.Failures) == 0; k += stride {
-		for _, post := range []bool{false, true} {
-			caseNo++
-			path := filepath.Join(dir, fmt.Sprintf("crash_%d.db", caseNo))
-			args := []string{"-child", path, "-childseed", fmt.Sprint(seed), "-childexit", fmt.Sprint(k)}
-			if post {
-				args = append(args, "-childpost")
-			}
-			out, _ := exec.Command(self, args...).Output()
-			acked := -1
-			for _, l := range strings.Split(string(out), "\n") {
-				if strings.HasPrefix(l, "ACK ") {
-					acked, _ = strconv.Atoi(strings.TrimSpace(l[4:]))
+	// (1) crashes during the very first Open of a new file
+	{
+		out, _ := exec.Command(self, "-child", filepath.Join(dir, "probe_open.db"), "-childseed", fmt.Sprint(seed), "-childopen").Output()
+		openSteps := int64(0)
+		for _, l := range strings.Split(string(out), "\n") {
+			if strings.HasPrefix(l, "OPENED ") {
+				f := strings.Fields(l)
+				openSteps, _ = strconv.ParseInt(f[1], 10, 64)
+				if len(f) > 2 {
+					count("open_steps_ddl_" + fmt.Sprint(strings.Count(f[2], "ddl")))
 				}
 			}
-			sum.Cases++
-			distinct(fmt.Sprintf("step%d-%v", k, post))
-			count("crash_points")
-			// re-open: must succeed, content = acknowledged prefix (+ the in-flight operation as a whole or not at all)
-			x, err := hx.OpenPath(path)
-			if err != nil {
-				fail("c09-reopen", fmt.Sprintf("after a crash at storage step %d (post=%v) the database does not re-open: %v", k, post, err), nil)
+		}
+		if openSteps == 0 {
+			fail("harness", "crash child did not open: "+string(out), nil)
+			return
+		}
+		for k := int64(1); k <= openSteps && len(sum.Failures) == 0; k++ {
+			for _, post := range []bool{false, true} {
+				caseNo++
+				path := filepath.Join(dir, fmt.Sprintf("open_%d.db", caseNo))
+				args := []string{"-child", path, "-childseed", fmt.Sprint(seed), "-childopen", "-childexit", fmt.Sprint(k)}
+				if post {
+					args = append(args, "-childpost")
+				}
+				_, _ = exec.Command(self, args...).Output()
+				sum.Cases++
+				count("crash_points_during_open")
+				distinct(fmt.Sprintf("open-step%d-%v", k, post))
+				recovered(path, fmt.Sprintf("a crash at storage step %d (post=%v) of the first Open of a new file", k, post), 0, -1, false)
+				cleanup(path)
+			}
+		}
+	}
+	// (2) crashes during the workloads
+	nwl := len(crashFamilies)
+	for wl := 0; wl < nwl && len(sum.Failures) == 0; wl++ {
+		probe := filepath.Join(dir, fmt.Sprintf("probe_%d.db", wl))
+		out, _ := exec.Command(self, "-child", probe, "-childseed", fmt.Sprint(seed), "-childwl", fmt.Sprint(wl)).Output()
+		var trace []string
+		var ackAt []int
+		var names []string
+		done := false
+		for _, l := range strings.Split(string(out), "\n") {
+			f := strings.Fields(l)
+			switch {
+			case strings.HasPrefix(l, "ACK ") && len(f) == 4:
+				a, _ := strconv.Atoi(f[2])
+				ackAt = append(ackAt, a)
+				names = append(names, f[3])
+			case strings.HasPrefix(l, "TRACE "):
+				if len(f) > 1 {
+					trace = strings.Split(f[1], ",")
+				}
+			case strings.HasPrefix(l, "DONE "):
+				done = true
+			}
+		}
+		if !done || len(trace) == 0 {
+			fail("harness", "crash child did not finish: "+string(out), nil)
+			return
+		}
+		count(fmt.Sprintf("workload_%s_ops_%d_steps_%d", crashFamilies[wl], len(ackAt), len(trace)))
+		budget := n / nwl * 2
+		if long {
+			budget = len(trace)
+		}
+		for _, k := range crashPoints(trace, ackAt, names, budget) {
+			if len(sum.Failures) > 0 {
 				break
 			}
-			got, err := hx.ContentOfDB(x.DB)
-			if err != nil {
-				fail("c09-reopen", "cannot read the recovered database: "+err.Error(), nil)
-				x.Close()
-				break
+			for _, post := range []bool{false, true} {
+				caseNo++
+				path := filepath.Join(dir, fmt.Sprintf("crash_%d.db", caseNo))
+				args := []string{"-child", path, "-childseed", fmt.Sprint(seed), "-childwl", fmt.Sprint(wl), "-childexit", fmt.Sprint(k)}
+				if post {
+					args = append(args, "-childpost")
+				}
+				out, _ := exec.Command(self, args...).Output()
+				acked := -1
+				for _, l := range strings.Split(string(out), "\n") {
+					if strings.HasPrefix(l, "ACK ") {
+						acked, _ = strconv.Atoi(strings.Fields(l)[1])
+					}
+				}
+				sum.Cases++
+				distinct(fmt.Sprintf("wl%d-step%d-%v", wl, k, post))
+				count("crash_points")
+				count("crash_at_" + trace[k-1])
+				opName := "?"
+				if acked+1 < len(names) {
+					opName = names[acked+1]
+				}
+				recovered(path, fmt.Sprintf("a crash at storage step %d (%s, post=%v) of workload %q, during %s", k, trace[k-1], post, crashFamilies[wl], opName), wl, acked, true)
+				cleanup(path)
 			}
-			wantA, _ := contentAfter(seed, acked+1)
-			wantB, _ := contentAfter(seed, acked+2)
-			if got.Text != wantA && got.Text != wantB {
-				fail("c09-content", fmt.Sprintf("crash at storage step %d (post=%v), %d operations acknowledged: the recovered content is neither the acknowledged prefix nor that plus the in-flight operation\n recovered: %s\n prefix   : %s\n prefix+1 : %s",
-					k, post, acked+1, got.Text, wantA, wantB), nil)
-			}
-			var ic string
-			_ = x.Raw.QueryRow("pragma integrity_check").Scan(&ic)
-			if ic != "ok" {
-				fail("c09-integrity", "pragma integrity_check after recovery: "+ic, nil)
-			}
-			audit, _ := hx.AuditAndContinue(x, &hx.History{ID: caseNo})
-			if audit != "ok" {
-				fail("c09-inconsistent", "the recovered database breaks the structural rules: "+audit, nil)
-			}
-			x.Close()
-			os.Remove(path)
-			os.Remove(path + "-wal")
-			os.Remove(path + "-shm")
 		}
 	}
 	if len(sum.Failures) == 0 {
@@ -499,7 +675,7 @@ func runC09(seed int64, n int, long bool) {
 // c09Reopen: clean close / re-open cycles after every prefix, read-write and read-only.
 func c09Reopen(dir string, seed int64) {
 	path := filepath.Join(dir, "reopen.db")
-	ops := crashOps(seed + 1)
+	ops := crashOps(seed+1, 5)
 	for i, op := range ops {
 		x, err := hx.OpenPath(path)
 		if err != nil {
@@ -876,4 +1052,3 @@ func runC20(seed int64, n int, long bool) {
 	// everything has expired 40 s after the population; the tick at 60 s must take all of it
 	bgC.finish(limit)
 }
-
